@@ -165,8 +165,11 @@ type runner struct {
 	ch    string
 	pubch string
 
-	mu         sync.Mutex
-	cur        struct{ n int; kind, mode string }
+	mu  sync.Mutex
+	cur struct {
+		n          int
+		kind, mode string
+	}
 	kept       map[int]func(res string)
 	keptID     map[int]int
 	log        []cbEntry
